@@ -41,6 +41,7 @@ type storeReport struct {
 
 type behaviour struct {
 	Steps []storerun.Step `json:"steps"`
+	Idx   *int            `json:"idx,omitempty"` // original index (salts of the replayer depend on it) when re-executed alone
 }
 
 func storeMain(args []string) error {
@@ -127,7 +128,11 @@ func storeMain(args []string) error {
 		if err := json.Unmarshal(line, &b); err != nil {
 			return fmt.Errorf("behaviour %d: %w", idx, err)
 		}
-		jobs <- job{idx: idx, b: b}
+		if b.Idx != nil {
+			jobs <- job{idx: *b.Idx, b: b}
+		} else {
+			jobs <- job{idx: idx, b: b}
+		}
 		idx++
 	}
 	close(jobs)
